@@ -134,9 +134,10 @@ class ScannerBuild:
         self.flex_stderr = ''
         self.flex_rc = 0
         self.c_path = None
+        self.obj = None
 
 
-def build_scanner(flex, workdir, name, l_text, flex_args, san=True, tsan=False, defines=(), extra_objs=(), cxx=False):
+def build_scanner(flex, workdir, name, l_text, flex_args, san=True, tsan=False, defines=(), extra_objs=(), cxx=False, link=True):
     """flex + cc + link against the driver.  Never raises for scenario-level
     failures: they are reported in the result (flex refusals are legitimate)."""
     r = ScannerBuild()
@@ -166,6 +167,10 @@ def build_scanner(flex, workdir, name, l_text, flex_args, san=True, tsan=False, 
     if p.returncode != 0:
         r.stage = 'cc'
         r.msg = p.stdout[-3000:]
+        return r
+    r.obj = obj
+    if not link:
+        r.ok = True
         return r
     drv = compile_driver(workdir, san=san, tsan=tsan)
     exe = os.path.join(d, name)
